@@ -83,11 +83,11 @@ CHECKS["C12"] = src("Family F_unsup: a small control alphabet plus exactly one c
 # additions made while the families grew (second round of seeded changes, defects reported by sub-agents)
 ADD = {
  "C01": (" Further families through the same pipeline: F_lit (immediately invoked closures and generator literals nested in the generator, capturing its variables), F_jump (break / continue / switch / yielding post statements one size level deeper), the control-flow programs under every declaration form (method, generic function, function literal, literal nested in a literal), and larger programs derived from seeded choice tapes (MC_Rnd).",
-         " Thorough trades tape length for size: F_ctl size 4 x tapes up to 2, F_jump size 5."),
+         " Thorough: F_ctl and F_lit at the quick size with tapes one longer, F_jump size 5, 5 000 derived programs (a size-4 sweep of F_ctl, 58 976 programs / 1.83 M cases, ran once: 38 min, all spec = native, no violation; it is not the registered thorough tier because it needs 25 GB)."),
  "C02": (" Also F_expr (shapes of the yielded expression: negated, parenthesised, argument of a call, a variable of another package rt.Level changed by a plain post statement) and F_box / F_boxv (yields of freshly allocated objects and of struct VALUES, i.e. composite literals that read a variable).",
          " Thorough: F_eff size 3 x tapes up to 4 x every truncation."),
  "C03": (" Also F_rscope (range loops: `=` forms assign the function-level variables observed after the loop, `:=` forms do not) and F_boxv (a variable read by a yielded composite literal is read when the yield is reached).", ""),
- "C05": ("", " Thorough: size 4 x tapes up to 2."),
+ "C05": ("", " Thorough: size 3 x tapes up to 5 x 9 calls."),
  "C06": (" Loop headers without a variable (for range it, for _ = range it) and a multi-value re-declaration of the loop variable in the body are part of the consumer grammar. Second family F_xf of MC_Src: consumers that are generators themselves (for k := range it { ... Yield ... } over a local iterator, also inside switch clauses, with break / continue / return and hand pulls).", ""),
  "C09": ("", " Family of 11 generators incl. generators that mix receiving and plain yields."),
  "C10": (" The exhaustive alphabet has 18 bytes (incl. EF BF BD: a validly encoded U+FFFD); boundary runes, surrogates, overlong and truncated forms and random mixtures of valid runes with stray bytes are passed in as data; map scenarios include a NaN key (not equal to itself) in the initial population; the integer iterator is also driven with uint8 / int64 / named integer types and called 300 times past its end.", ""),
@@ -99,7 +99,7 @@ ADD = {
  "C15": (" Plus a hand-written dependency scenario (a closure over a generator of a sub-package of the same run; three runs on unchanged sources must give the same bytes) validated by the same trace specification.", ""),
  "C16": (" Plus the dependency scenario of C15 and a path scenario (`_co` elsewhere in directory and file names: app_core/rune_codec_co.go) through the same entry point.", ""),
  "C17": ("", " Term / program size 3 in both tiers; 2*10^4 (quick) / 2*10^5 (thorough) repetitions."),
- "C18": (" Also a panicking yielding post statement (for ...; ...; Yield(r.B(7))) combined with continue inside a switch.", " Thorough: size 4 x tapes up to 2."),
+ "C18": (" Also a panicking yielding post statement (for ...; ...; Yield(r.B(7))) combined with continue inside a switch.", " Thorough: size 3 x tapes up to 4."),
  "C04": (" Operands of named types, an untyped constant operand with an int64 iteration variable, empty-body loops as simple statements (sequences of loops in one block).", " Thorough: the family with the additional mutations (rangex) at the quick size."),
  "C07": (" F_box / F_boxv (fresh objects / composite-literal values), permuted-argument wrappers and the qualified variable rt.Level are included; a missing stage is a machinery error (exit 2), never a silent pass.", ""),
 }
